@@ -312,6 +312,7 @@ def _work(arg):
     if seed is not None:
         return _work_in_subprocess(arg, seed)
     t0 = time.time()
+    rec = None
     try:
         mod = load_check(check_id)
         rec = Rec(check_id, mod)
@@ -322,8 +323,34 @@ def _work(arg):
         out["index"] = index
         out["wall"] = time.time() - t0
         return out
+    except Exception as e:
+        if rec is not None and raised_inside_library(e):
+            # An exception that comes out of the library under test at a place where the check did not expect one
+            # (no such exception occurs on the unchanged tree, or this line would be reached there): the library
+            # raised where it used to answer. Reported as a violation whose replay re-runs the shard - never as a
+            # silent infrastructure error.
+            rec.violation("shard", "uncaught-library-exception", {"__shard__": shard},
+                          f"{type(e).__name__}: {e}; " + " <- ".join(traceback.format_exc().strip().splitlines()[-7:])[:1500])
+            out = rec.payload()
+            out["index"] = index
+            out["wall"] = time.time() - t0
+            return out
+        return {"index": index, "error": traceback.format_exc(), "shard": shard}
     except BaseException:
         return {"index": index, "error": traceback.format_exc(), "shard": shard}
+
+
+def raised_inside_library(e):
+    """True if the innermost frame of the exception's traceback is code of the library under test."""
+    tb = e.__traceback__
+    last = None
+    while tb is not None:
+        last = tb
+        tb = tb.tb_next
+    if last is None:
+        return False
+    path = os.path.abspath(last.tb_frame.f_code.co_filename)
+    return path.startswith(os.path.join(REPO, "dataiter") + os.sep)
 
 
 def load_known():
@@ -469,6 +496,10 @@ def run_check(check_id, tier, seed):
             # explored under another string-hash seed: re-execute the case in a fresh interpreter under that seed
             if not case_reproduces(check_id, vs[0], sig):
                 raise InfraError(f"violation did not reproduce on re-execution under its hash seed (uncaptured nondeterminism?): {sig}")
+        elif os.environ.get("VERIF_NO_RECHECK") != "1" and isinstance(vs[0]["case"], dict) and "__shard__" in vs[0]["case"]:
+            # the violation is about a whole shard (an exception out of the library in the middle of it)
+            if not shard_reproduces(check_id, vs[0], sig):
+                raise InfraError(f"a shard-level violation did not reproduce when the shard was run again: {sig}")
         elif os.environ.get("VERIF_NO_RECHECK") != "1":
             probe = Rec(check_id, mod)
             try:
@@ -577,8 +608,13 @@ def run_replay(path):
     rec = Rec(check_id, mod)
     if isinstance(data["case"], dict) and "__shard__" in data["case"]:
         rec.shard = data["case"]["__shard__"]
-        with shard_env(rec.shard):
-            mod.run_shard(data["case"]["__shard__"], rec)
+        try:
+            with shard_env(rec.shard):
+                mod.run_shard(data["case"]["__shard__"], rec)
+        except Exception as e:
+            if not raised_inside_library(e):
+                raise
+            rec.violation("shard", "uncaught-library-exception", {"__shard__": rec.shard}, f"{type(e).__name__}: {e}")
     else:
         with shard_env(data["case"]):
             mod.check_case(data["case"], rec)
